@@ -66,7 +66,7 @@ Lemma inv_awg_rewire dm st cm' :
   (forall n r c, In (n, r) (regs st) -> In c (r_chans r) -> get_set c cm' = get_set c (chmap st)) ->
   routing_inv_awg dm st ->
   routing_inv_awg dm {| chmap := cm'; mmap := mmap st; regs := regs st; awg_of := awg_of st; dac_of := dac_of st;
-                        cblog := cblog st |}.
+                        cblog := cblog st; vollog := vollog st |}.
 Proof.
   intros Hc [Hnd [Hex [Hrec Harm]]]. unfold routing_inv_awg. cbn. split; auto. split; [|split; auto].
   - intros a. apply awg_exact_iff. specialize (Hex a). apply awg_exact_iff in Hex as [A [B C]].
@@ -384,6 +384,7 @@ Section Preserve.
     - eapply inv_awg_clear; eauto.
     - eapply inv_awg_arm; eauto.
     - eapply inv_awg_run; eauto.
+    - unfold update_parameters in H. destruct (lookup name (regs st)); inversion H; subst; auto.
   Qed.
 
   Lemma inv_awg_run_history : forall h st,
